@@ -29,6 +29,20 @@ def _setup_xyk(I, n_extra, decs=(6, 6)):
     return x, y, shares
 
 
+def _replay_k1(n_extra):
+    from .c02 import _mints
+
+    def build(m):
+        fees = (m['protocol_fee'], m['swap_fee'], m['burn_fee'], [m['extra_fee%d' % i] for i in range(n_extra)])
+        pool = pool_json('p1', ['uA', 'uB'], [6, 6], [m['reserve_x'], m['reserve_y']], 'constant_product', fees)
+        steps = [{'op': 'set_pool', 'pool': pool}]
+        steps += _mints([('pool_manager', [('uA', m['reserve_x']), ('uB', m['reserve_y'])]), ('trader', [('uA', m['offer'])])])
+        steps.append({'op': 'execute', 'contract': 'pool_manager', 'sender': 'trader', 'funds': [coin_j('uA', m['offer'])],
+                      'msg': {'swap': {'ask_asset_denom': 'uB', 'max_slippage': dec_j(m['max_slippage_atomics']), 'pool_identifier': 'p1'}}})
+        return {'setup': {}, 'steps': steps}, len(steps) - 1
+    return generic_replay(build)
+
+
 def _ob_k1(n_extra):
     def k1(I):
         x, y, shares = _setup_xyk(I, n_extra)
@@ -40,6 +54,8 @@ def _ob_k1(n_extra):
             return
         I.outcome('ok')
         I.cover('ok', HINT)
+        I.observe('status', 'ok')
+        observe_pool(I, 'p1')
         res = r.f[0]
         ret = res.get('return_asset').get('amount')
         sw = res.get('swap_fee_asset').get('amount')
@@ -63,7 +79,7 @@ for _n in (0, 2):
                statement='constant product: after an executed swap the stored reserves satisfy x\'*y\' >= x*y, offer reserve grew by the full offer, '
                          'gross output < ask reserve; for every fee configuration accepted by PoolFee::is_valid (%d extra fees)' % _n,
                bounds='reserves, offer in [1, 2^128); fee shares full range filtered by the real is_valid; slippage tolerance symbolic',
-               covers=['ok'])(_ob_k1(_n))
+               covers=['ok'], replay=_replay_k1(_n))(_ob_k1(_n))
 
 
 K1_LEMMA = 'C03.K1 (same run): every executed constant-product swap leaves x\'*y\' >= x*y on the stored reserves'
